@@ -76,7 +76,9 @@ let errkind_s = function
   | EVarNotPresent -> "E:VarNotPresent" | EOther -> "E:Other"
   | EDoesNotExist -> "E:DoesNotExist" | EIsNotDir -> "E:IsNotDir" | EIsNotFile -> "E:IsNotFile"
   | EIsNotSymlink -> "E:IsNotSymlink" | EDirContainsFiles -> "E:DirContainsFiles" | EExistsAlready -> "E:ExistsAlready"
-  | ELinkLooping -> "E:LinkLooping" | EInvalidData -> "E:IoInvalidData" | EChmodSym -> "E:VfsInvalidChmod"
+  | ELinkLooping -> "E:LinkLooping" | EInvalidData -> "E:IoInvalidData"
+  | EInvChmod -> "E:VfsInvalidChmod" | EInvChmodTarget -> "E:VfsInvalidChmodTarget" | EInvChmodGroup -> "E:VfsInvalidChmodGroup"
+  | EInvChmodOp -> "E:VfsInvalidChmodOp" | EInvChmodPerms -> "E:VfsInvalidChmodPermissions"
 let out_res f = function Inl a -> f a | Inr e -> errkind_s e
 let out_strlist l = "L:" ^ String.concat "," (List.map hex_str l)
 
